@@ -105,12 +105,13 @@ PROPS["C10"] = {
     "groups": [
         {"id": "arc",
          "quick": ["c10::c10_pool_k2", "c10::c10_pool_k3", "c10::c10_from_value_last_handle_drops", "c10::c10_empty_is_inert",
+                   "c10::c10_zero_sized_value_with_destructor",
                    "c10::c10_foreign_functions_used", "c16::c16_carc_view_overaligned_opaque_clone", "c10::c10_negative_twin"],
          "thorough_adds": ["c10::c10_pool_k4"],
          "timeout": 3000},
     ],
     "negative": ["c10::c10_negative_twin"],
-    "bounds": "every history of k = 2 and 3 (thorough 4) operations, each chosen symbolically from 11 operation kinds {clone, clone_from, "
+    "bounds": "every history of k = 2 and 3 (thorough 4) operations, each chosen symbolically from 12 operation kinds {clone, clone_from, repeated into_opaque, "
               "take, drop, transpose both ways, swap, CArcSome clone, into_arc + from Option<Arc>, into_opaque, opaque clone, "
               "opaque drop}, on a pool of 2 typed handle slots + 1 opaque slot sharing one allocation, observed through a "
               "retained std Arc's strong_count and the payload's drop counter; symbolic payload value; both drop orders",
@@ -127,7 +128,7 @@ def _c15_extra(prop, tier):
     import c17
     r = c17.helper_checks()
     out = {"coverage": {"c_helper_snippets": {"cbmc_properties": r["props"], "solver_time_s": round(r["secs"], 2), "harness": r["harness"],
-                                              "what": "buf_iter_next over buffers of symbolic length 0..=3 and contents; "
+                                              "what": "buf_iter_next over buffers of symbolic length 0..=3 and contents; cb_collect_dynamic_base across its first growth (66 items); "
                                                       "cb_collect_static_base with symbolic capacity 0..=3 and 0..=4 offered items"}},
            "violations": [], "inconclusive": []}
     if r["error"] or not r.get("has_helper_tests"):
